@@ -779,7 +779,9 @@ def krylov(model, sfield, efield, var):
         pre = "\n"
     pre += "   > "
     if i < 0:
-        if var.exit_message == '':
+        # A "CONVERGED" at this point refers to the system of the multigrid
+        # preconditioner (set in `_terminate`), not to the Krylov solver.
+        if var.exit_message in ['', 'CONVERGED']:
             var.exit_message = f"Error in {var.sslsolver} ({i})"
         pre = "\n* ERROR   :: "
     elif i > 0 or var.ssl_maxit < 1:
